@@ -102,6 +102,10 @@ class View(object):
         self.slot = arb._exclusive_running_command
         self.stopping = arb._stopping
         self.any_on_demand = any(getattr(w, "on_demand", False) for w in arb.watchers)
+        self._owner = arb.endpoint_owner if getattr(arb, "endpoint_owner_mode", False) else None
+
+    def owner(self):
+        return self._owner
 
 
 def some_name(rng, v, bogus=0.1):
@@ -287,6 +291,14 @@ def gen_request(rng, v, rid, profile):
                         "graceful_timeout": rng.choice([0, 0.1, 0.3]), "warmup_delay": rng.choice([0, 0.1]),
                         "respawn": rng.choice([True, False]), "bogus": 1, "stop_signal": rng.choice([15, 2, "x"])}[k]
             props["options"] = o
+        owner = v.owner() if hasattr(v, "owner") else None
+        if owner is not None:
+            # endpoint-owner mode: the uid of the request has to be the owner (given, missing, another user, a number)
+            r = rng.random()
+            if r < 0.5:
+                props.setdefault("options", {})["uid"] = owner
+            elif r < 0.8:
+                props.setdefault("options", {})["uid"] = rng.choice(["nobody", 0, "Root", ""])
         if rng.random() < 0.1:
             del props["cmd"]
         return base("add")
@@ -634,6 +646,9 @@ def gen_scenario(rng, nops=None, profile=None):
         sc = gen_config(rng, profile)
     # which of the two call sites of start_watchers in Arbiter.start() the scenario goes through (circusd: own loop)
     sc["own_loop"] = rng.random() < 0.5
+    # endpoint-owner mode (an ipc:// control endpoint with endpoint_owner set): `add` must carry the owner's uid
+    if rng.random() < profile.get("owner", 0.1):
+        sc.setdefault("arb", {})["owner"] = "root"
     sc["ops"] = []
     nops = nops or rng.choice([6, 10, 16, 24, 40])
     nops = max(nops, len(scripted) + 4) if scripted else nops
